@@ -89,6 +89,13 @@ F4M ==
     /\ dev = Cfg([E0_in |-> Keep], [E0 |-> I("", "E0_in", "")], ra, FALSE)
     /\ tgt = Cfg([E0_in |-> Keep], [E0 |-> I("", "E0_in", "")], rb, FALSE)
 
+(* F4N: destinations with one network address and different prefix lengths (n14 = 10.1.0.0/16, n13 = 10.1.0.0/24) *)
+NRouteSets == {rs \in SUBSET [vrf : {""}, dst : {"n14", "n13"}, gw : {"gA", "gB"}] : \A r, q \in rs : r.dst = q.dst => r = q}
+F4N ==
+  \E ra, rb \in NRouteSets :
+    /\ dev = Cfg([E0_in |-> Keep], [E0 |-> I("", "E0_in", "")], ra, FALSE)
+    /\ tgt = Cfg([E0_in |-> Keep], [E0 |-> I("", "E0_in", "")], rb, FALSE)
+
 (* F7: content outside Netspoc's scope: unknown interface, unmanaged VRF, spare ACL *)
 F7 ==
   \E a, b \in InjSeqs(Pool, MaxLen),
@@ -215,7 +222,7 @@ S1 ==
     /\ dev = Cfg([E0_in |-> a \o tail], [E0 |-> I("", "E0_in", "")], {}, FALSE)
     /\ tgt = Cfg([E0_in |-> b \o tail], [E0 |-> I("", "E0_in", "")], {}, FALSE)
 
-Init == CASE Fam = "S1" -> S1 [] Fam = "M2L" -> M2L [] Fam = "V2" -> V2 [] Fam = "V1L" -> V1L [] Fam = "F1L" -> F1L [] Fam = "M1" -> M1 [] Fam = "F1" -> F1 [] Fam = "F3" -> F3 [] Fam = "F4" -> F4 [] Fam = "F4M" -> F4M [] Fam = "F7" -> F7 [] Fam = "F8" -> F8
+Init == CASE Fam = "S1" -> S1 [] Fam = "M2L" -> M2L [] Fam = "V2" -> V2 [] Fam = "V1L" -> V1L [] Fam = "F1L" -> F1L [] Fam = "M1" -> M1 [] Fam = "F1" -> F1 [] Fam = "F3" -> F3 [] Fam = "F4" -> F4 [] Fam = "F4M" -> F4M [] Fam = "F4N" -> F4N [] Fam = "F7" -> F7 [] Fam = "F8" -> F8
 Next == UNCHANGED <<dev, tgt>>
 Out == PrintT(<<"VOUT", ToJson([fam |-> Fam, dev |-> dev, tgt |-> tgt, tie |-> FALSE])>>)
 =============================================================================
